@@ -5,6 +5,25 @@ import (
 	"helm.sh/helm/v4/verifh/core"
 
 	_ "helm.sh/helm/v4/verifh/props/c01"
+	_ "helm.sh/helm/v4/verifh/props/c02"
+	_ "helm.sh/helm/v4/verifh/props/c03"
+	_ "helm.sh/helm/v4/verifh/props/c04"
+	_ "helm.sh/helm/v4/verifh/props/c05"
+	_ "helm.sh/helm/v4/verifh/props/c06"
+	_ "helm.sh/helm/v4/verifh/props/c07"
+	_ "helm.sh/helm/v4/verifh/props/c08"
+	_ "helm.sh/helm/v4/verifh/props/c09"
+	_ "helm.sh/helm/v4/verifh/props/c10"
+	_ "helm.sh/helm/v4/verifh/props/c11"
+	_ "helm.sh/helm/v4/verifh/props/c12"
+	_ "helm.sh/helm/v4/verifh/props/c13"
+	_ "helm.sh/helm/v4/verifh/props/c14"
+	_ "helm.sh/helm/v4/verifh/props/c15"
+	_ "helm.sh/helm/v4/verifh/props/c16"
+	_ "helm.sh/helm/v4/verifh/props/c17"
+	_ "helm.sh/helm/v4/verifh/props/c18"
+	_ "helm.sh/helm/v4/verifh/props/c19"
+	_ "helm.sh/helm/v4/verifh/props/c20"
 )
 
 func main() { core.Main() }
